@@ -1,3 +1,92 @@
-import LibconfigModel.WF
+import LibconfigModel.Step
+import LibconfigModel.Proofs.C16
+/-
+  C16 — hooks are released exactly once, when their setting is destroyed, never for a
+  setting that is still alive.  Statements only; helper lemmas live in
+  LibconfigModel/Proofs/C16.lean.
+
+  `destroyLog true n` lists the non-null hooks of every setting of the subtree `n` in
+  destruction order (children before their parent), so it serves as "the multiset of
+  hooks currently attached to live settings".  The conservation law below says that the
+  destructor log of an operation is exactly what disappears from that multiset — hence a
+  hook is logged once (it cannot disappear twice), only when its setting goes away, and
+  never while the setting is alive.
+-/
 namespace Libconfig.C16
+
+/-- non-null hooks attached to the live settings below (and including) `n` -/
+def hooks (n : Node) : List Nat := destroyLog true n
+
+/-- operations that attach hooks or (un)register the destructor, and reads -/
+def special : Op → Bool
+  | .setHook .. => true
+  | .setDestructor _ => true
+  | .read _ => true
+  | _ => false
+
+/-- Conservation: with a destructor registered, every operation logs exactly the hooks
+that leave the tree. -/
+theorem C16_conservation (s : State) (op : Op) (hd : s.cfg.destructor = true)
+    (hop : special op = false) :
+    (hooks s.cfg.root).Perm ((step s op).2.log ++ hooks (step s op).1.cfg.root) := by
+  have h := C16P.step_conserves s op (by cases op <;> first | rfl | exact hop)
+  rw [hd] at h; exact h
+
+/-- The same for reads (the old tree is destroyed, the parser attaches no hooks, an
+overridden duplicate is destroyed like any other setting). -/
+theorem C16_conservation_read (s : State) (src : Source) (hd : s.cfg.destructor = true) :
+    (hooks s.cfg.root).Perm ((step s (.read src)).2.log ++ hooks (step s (.read src)).1.cfg.root) := by
+  have h := C16P.step_read_conserves s src
+  rw [hd] at h; exact h
+
+/-- Exactly once: if the live hooks are pairwise distinct, no hook is logged twice … -/
+theorem C16_once (s : State) (op : Op) (hd : s.cfg.destructor = true) (hop : special op = false)
+    (hn : (hooks s.cfg.root).Nodup) : (step s op).2.log.Nodup :=
+  (C16P.perm_nodup_parts (C16_conservation s op hd hop) hn).1
+
+/-- … and never for a setting that is still alive after the operation. -/
+theorem C16_alive (s : State) (op : Op) (hd : s.cfg.destructor = true) (hop : special op = false)
+    (hn : (hooks s.cfg.root).Nodup) : ∀ h ∈ (step s op).2.log, h ∉ hooks (step s op).1.cfg.root :=
+  (C16P.perm_nodup_parts (C16_conservation s op hd hop) hn).2.2
+
+/-- Distinctness of the live hooks is itself preserved (so the two statements above apply
+along a whole history in which `set_hook` always attaches fresh hooks). -/
+theorem C16_nodup_preserved (s : State) (op : Op) (hd : s.cfg.destructor = true) (hop : special op = false)
+    (hn : (hooks s.cfg.root).Nodup) : (hooks (step s op).1.cfg.root).Nodup :=
+  (C16P.perm_nodup_parts (C16_conservation s op hd hop) hn).2.1
+
+/-- Attaching a hook logs nothing. -/
+theorem C16_setHook_silent (s : State) (p : Path) (h : Nat) : (step s (.setHook p h)).2.log = [] :=
+  C16P.setHook_silent s p h
+
+/-- Without a registered destructor nothing is ever logged (non-read operations). -/
+theorem C16_no_destructor (s : State) (op : Op) (hd : s.cfg.destructor = false)
+    (hop : ∀ src, op ≠ .read src) : (step s op).2.log = [] :=
+  C16P.no_destructor s op hd hop
+
+/-- `config_destroy` releases everything: every live hook is logged, in destruction order. -/
+theorem C16_destroy (s : State) :
+    (step s .destroy).2.log = destroyLog s.cfg.destructor s.cfg.root ∧
+    hooks (step s .destroy).1.cfg.root = [] :=
+  C16P.destroy_log s
+
+/-- Children are destroyed before their parent. -/
+theorem C16_children_first (d : Bool) (n : Node) :
+    destroyLog d n = destroyLogList d n.kids ++ (if n.hook != 0 && d then [n.hook] else []) :=
+  C16P.destroyLog_eq d n
+
+/-- Removing an element logs exactly the hooks of the removed subtree. -/
+theorem C16_removeElem (s : State) (p : Path) (i : Nat) (n victim : Node)
+    (hn : s.cfg.root.get? p = some n) (ha : n.isAggregate = true) (hv : n.kids[i]? = some victim) :
+    (step s (.removeElem p i)).2.log = destroyLog s.cfg.destructor victim :=
+  C16P.removeElem_log s p i n victim hn ha hv
+
+/-- Non-vacuity: a tree with hooks 7 (on an element) and 9 (on its list); removing the
+list logs 7 then 9. -/
+def sample : State :=
+  { cfg := { destructor := true, root := { ty := T_GROUP, kids := [
+      { name := some [97], ty := T_LIST, hook := 9, kids := [{ ty := T_INT, hook := 7 }] } ] } } }
+
+example : (step sample (.removeElem [] 0)).2.log = [7, 9] := by decide
+
 end Libconfig.C16
